@@ -96,7 +96,7 @@ class FortranRegularExpressions:
         I,
     )
     PARAMETER_VAL: Pattern = compile(
-        r"\w*[\s\&]*(?:\([^=]*\)[\s\&]*)?(?:\*[\s\&]*\w+[\s\&]*)?"
+        r"\w*[\s\&]*(?:\([^=]*\)[\s\&]*)?(?:\*[\s\&]*(?:\w+|\([^=]*\))[\s\&]*)?"
         r"=(([\s\&]*[\w\.\-\+\*\/\'\"])*)",
         I,
     )
